@@ -202,9 +202,11 @@ def go_build(ctx, pkg, race=False, tags="verif"):
     key = (pkg, race)
     if key in _built:
         return _built[key]
-    ensure_harness_mod()
     out = os.path.join(ctx.scratch, "bin-%s%s" % (pkg, "-race" if race else ""))
     cmd = ["go", "build", "-tags", tags, "-o", out]
+    mf = ensure_harness_mod(ctx)
+    if mf:
+        cmd += ["-modfile", mf]
     if race:
         cmd.append("-race")
     cmd.append("./cmd/" + pkg)
@@ -215,9 +217,18 @@ def go_build(ctx, pkg, race=False, tags="verif"):
     return out
 
 
-def ensure_harness_mod():
-    # go.sum of the harness is committed; nothing to fetch.  -mod=mod lets go fill in /repo's (empty) requirements.
-    pass
+def ensure_harness_mod(ctx):
+    """The harness module replaces github.com/uhn/ggql by /repo.  When VERIF_REPO points elsewhere
+    (mutation testing on a scratch worktree) an alternative go.mod is generated and used via -modfile."""
+    if os.path.realpath(REPO) == "/repo":
+        return None
+    mf = os.path.join(ctx.scratch, "alt.mod")
+    if not os.path.exists(mf):
+        text = open(os.path.join(HARNESS, "go.mod")).read().replace("=> /repo", "=> " + os.path.realpath(REPO))
+        with open(mf, "w") as fh:
+            fh.write(text)
+        shutil.copy(os.path.join(HARNESS, "go.sum"), os.path.join(ctx.scratch, "alt.sum"))
+    return mf
 
 
 def run_bin(ctx, binpath, args, timeout=600, stdin=None, env=None):
